@@ -39,6 +39,10 @@ var Shapes = map[string]ShapeInfo{
 	"c3r": {"c3r", 2, 2, 3, []bool{true, true}},
 	// c4b: four commitments where later ones refer back to earlier commitments out of order
 	"c4b": {"c4b", 2, 2, 4, []bool{true, true}},
+	// p1z / p3z: public inputs equal to zero (p3z: three public inputs, the last one zero) - exceptional scalars for
+	// the public-input multi-scalar multiplication of the in-circuit verifiers (C17)
+	"p1z": {"p1z", 1, 2, 0, []bool{true}},
+	"p3z": {"p3z", 3, 2, 0, []bool{true, true, true}},
 	// pub2 has no secret input at all: X0*X0 == X1
 	"pub2": {"pub2", 2, 0, 0, []bool{true, true}},
 }
@@ -73,6 +77,19 @@ func NewShape(kind string) *ShapeCircuit {
 func AssignShape(kind string, variant int) *ShapeCircuit {
 	c := NewShape(kind)
 	y0 := 3 + variant
+	base := kind
+	if len(kind) > 4 && kind[len(kind)-4:] == "_alt" {
+		base = kind[:len(kind)-4]
+	}
+	if base == "p1z" {
+		c.Y[0], c.Y[1], c.X[0] = 0, 5+2*variant, 0
+		return c
+	}
+	if base == "p3z" {
+		c.Y[0], c.Y[1] = y0, 5+2*variant
+		c.X[0], c.X[1], c.X[2] = y0*y0, 12+7*variant, 0
+		return c
+	}
 	if len(c.Y) == 0 {
 		c.X[0] = y0
 		c.X[1] = y0 * y0
@@ -126,7 +143,9 @@ func (c *ShapeCircuit) Define(api frontend.API) error {
 		return nil
 	}
 	switch kind {
-	case "p1", "p2u":
+	case "p1", "p2u", "p1z":
+	case "p3z":
+		api.AssertIsEqual(api.Mul(c.X[1], c.X[2]), c.X[2])
 	case "c1s":
 		if _, err := commit(c.Y[0]); err != nil {
 			return err
